@@ -630,8 +630,19 @@ func foreignLabel(name, id string) bool {
 	}
 	rest := name[i+1:]
 	for _, part := range strings.Split(rest, ".") {
-		if len(part) >= 4 && part[0] == 'C' && part[1] >= '0' && part[1] <= '9' && part[2] >= '0' && part[2] <= '9' && part[3] == '_' {
-			return !strings.EqualFold(part[:3], id)
+		// leading property ids: "C01_C15_lock" belongs to C01 and C15
+		var owners []string
+		for len(part) >= 4 && part[0] == 'C' && part[1] >= '0' && part[1] <= '9' && part[2] >= '0' && part[2] <= '9' && part[3] == '_' {
+			owners = append(owners, part[:3])
+			part = part[4:]
+		}
+		if len(owners) > 0 {
+			for _, o := range owners {
+				if strings.EqualFold(o, id) {
+					return false
+				}
+			}
+			return true
 		}
 	}
 	return false
